@@ -742,9 +742,12 @@ def _plain_oracle(args, obs):
 
 
 def plain_bound(h1, b0, b1, h2, b2, w, wlen, route, big):
-    """quick: S -> b0 (any of the 21 bodies), A -> b1 (|b1| <= 1), words of length <= 2, FeatureProduction objects.
-    thorough, two families: (i) S -> b0, (S|A) -> b1, any bodies, words <= 2, from_text;
-    (ii) S -> b0 (|b0| = 2), A -> b1, S -> b2 (|b1|, |b2| <= 1), words <= 3, FeatureProduction objects."""
+    """Two productions S -> b0, h1 -> b1:
+         quick: A -> b1 (|b1| <= 1) or S -> b1 (b1 = epsilon, a or b); words <= 2; FeatureProduction objects;
+         thorough: h1 in {S, A}, any bodies; words <= 2; from_text.
+       Three productions S -> b0, A -> b1, S -> b2 with |b0| = 2, A in b0, b2 in {epsilon, a, b}, FeatureProduction
+       objects (the shape in which a variable is predicted in the middle of the word):
+         quick: |b1| = 2, S in b1, b2 in {a, b}, words of length 2;   thorough: any b1, words <= 3."""
     ok = 1 <= h1 <= 2 and 0 <= h2 <= 2 and 0 <= wlen <= 3 and 0 <= route < 2
     for b in (b0, b1, b2):
         ok = ok and 0 <= b[0] <= 4 and 0 <= b[1] <= 4 and (b[0] != 0 or b[1] == 0)
@@ -757,10 +760,15 @@ def plain_bound(h1, b0, b1, h2, b2, w, wlen, route, big):
             return False
         if big:
             return route == 0
-        return route == 1 and h1 == 2 and b1[1] == 0
-    if not big:
+        if route != 1 or b1[1] != 0:
+            return False
+        return h1 == 2 or (b1[0] != 1 and b1[0] != 2)
+    if not (route == 1 and h1 == 2 and h2 == 1 and b0[1] != 0 and (b0[0] == 2 or b0[1] == 2)
+            and b2[1] == 0 and b2[0] != 1 and b2[0] != 2):
         return False
-    return route == 1 and h1 == 2 and h2 == 1 and b0[1] != 0 and b1[1] == 0 and b2[1] == 0
+    if big:
+        return True
+    return wlen == 2 and b1[1] != 0 and (b1[0] == 1 or b1[1] == 1) and b2[0] != 0
 
 
 def c18_plain(h1: int, b0: I2, b1: I2, h2: int, b2: I2, w: Tuple[int, int, int], wlen: int, route: int) -> bool:
@@ -828,11 +836,16 @@ def _shards_fcfg(tier):
     return out
 
 
+_B0_WITH_A = [(2, 1), (2, 2), (2, 3), (2, 4), (1, 2), (3, 2), (4, 2)]
+
+
 def _shards_plain(tier):
     if tier == "quick":
-        return [dict(h1=2, h2=0, route=1, b00=x, wlen=n) for x in range(5) for n in range(3)]
+        out = [dict(h1=h, h2=0, route=1, b00=x, wlen=n) for h in (1, 2) for x in range(5) for n in range(3)]
+        out += [dict(h1=2, h2=1, route=1, b00=x, b01=y, wlen=2) for (x, y) in _B0_WITH_A]
+        return out
     out = [dict(h1=h, h2=0, route=0, b00=x, b10=y) for h in (1, 2) for x in range(5) for y in range(5)]
-    out += [dict(h1=2, h2=1, route=1, b00=x, b01=y) for x in range(1, 5) for y in range(1, 5)]
+    out += [dict(h1=2, h2=1, route=1, b00=x, b01=y, b10=z) for (x, y) in _B0_WITH_A for z in range(5)]
     return out
 
 
